@@ -13,7 +13,8 @@ def spec(tier):
     FPR = {"h_level_gate.function_pointer_call.1": ["s_aws_logger_pipeline_get_log_level"], "h_level_gate.function_pointer_call.2": ["s_aws_logger_pipeline_log"],
            "s_aws_logger_pipeline_log.function_pointer_call.1": ["fmt_format"], "s_aws_logger_pipeline_log.function_pointer_call.2": ["s_foreground_channel_send"],
            "s_foreground_channel_send.function_pointer_call.1": ["wr_write"], "aws_logger_set_log_level.function_pointer_call.1": ["s_aws_logger_pipeline_set_log_level"],
-           "aws_log_channel_clean_up.function_pointer_call.1": ["s_foreground_channel_clean_up"]}
+           "aws_log_channel_clean_up.function_pointer_call.1": ["s_foreground_channel_clean_up"],
+           "h_level_gate_not_root.function_pointer_call.1": ["s_aws_logger_pipeline_get_log_level"], "h_level_gate_not_root.function_pointer_call.2": ["s_aws_logger_pipeline_log"]}
     for k in ((2, 3) if tier == "quick" else (2, 3, 4, 5)):
         u = "g%d" % k
         units[u] = dict(harness=["C14/h_gate.c"], sources=GSRC, stubs=["base.c", "alloc_direct.c", "memcpy_loop.c", "memchr.c"], defines={"K": k, "VERIF_REAL_LOGGING": None}, fp_restrict=FPR,
@@ -21,6 +22,9 @@ def spec(tier):
         jobs.append(dict(unit=u, entry="h_level_gate", unwind=k + 3, timeout=300 if tier == "quick" else 2400,
                          bounds="%d log calls with symbolic levels (all 6), initial level and one level change at a symbolic position symbolic (0..6 incl. NONE)" % k,
                          what="level gate + foreground channel: accepted iff level <= active level; exactly one write per accepted call, in order, under the mutex"))
+        jobs.append(dict(unit=u, entry="h_level_gate_not_root", unwind=k + 3, timeout=300 if tier == "quick" else 2400,
+                         bounds="%d AWS_LOGUF calls with symbolic levels on a pipeline logger that is not the root logger; root logger absent or another logger with a symbolic level" % k,
+                         what="level gate for a non-root logger: the logger's own level decides, the root logger has no influence"))
     meta = dict(functions_encoded=["source/log_formatter.c: aws_format_standard_log_line, s_advance_and_clamp_index",
                                    "source/logging.c: aws_logger_init_from_external, pipeline log/get_level/set_level, aws_logger_set/get, aws_logger_set_log_level", "source/log_channel.c: foreground channel",
                                    "AWS_LOGF macro"],
